@@ -275,8 +275,10 @@ fn run_line(line: &str) -> String {
                 let liveliness = false;
                 let cap = Cap::new();
                 let reader_guid = s.reader.guid();
-                // transcription of communication_methods.rs (heartbeat handling of a user reader)
-                if let Some(writer_proxy) = s.reader.matched_writer_lookup(s.wguid) {
+                // transcription of communication_methods.rs (heartbeat handling of a user reader);
+                // a HEARTBEAT with firstSN <= 0 is ignored there before any reader is looked up
+                if first <= 0 {
+                } else if let Some(writer_proxy) = s.reader.matched_writer_lookup(s.wguid) {
                     if writer_proxy.last_received_heartbeat_count() < count {
                         writer_proxy.set_last_received_heartbeat_count(count);
                         writer_proxy.missing_changes_update(last);
